@@ -502,6 +502,9 @@ def main(prop):
     t, sd = tier(), seed()
     rep = Report(prop)
     build_s = common.build_driver()
+    import kani_run
+    kgroups = {'C01': ['req'], 'C02': ['req'] if t == 'thorough' else [], 'C07': ['ival']}[prop]
+    kbox = kani_run.start(kgroups) if kgroups and not os.environ.get('VERIF_NO_KANI') else None
     items = family(prop, t, sd)
     t0 = time.time()
     parts = parallel(work, items)
@@ -548,6 +551,7 @@ def main(prop):
         rep.broken.append({'why': 'no must-fail twin was detected: obligations look vacuous', 'twins': tw})
     if stats['queries'] and stats['unknown'] > 0.01 * stats['queries']:
         rep.broken.append({'why': 'more than 1% of the queries inconclusive', 'unknown': stats['unknown'], 'queries': stats['queries']})
+    kani_summary = kani_run.join(kbox, rep, prop) if kbox else []
     obligations = {'C01': ['soundness: Lin(x,a) & not Src_eps(x) unsat', 'completeness: Src(x) & forall a. not Lin_eps(x,a) unsat'],
                    'C02': ['no extension better: Src & Lin & g better than f by margin unsat', 'value attained: Src(x) & exists a Lin_eps & forall a.(Lin_eps => |g-f|>margin) unsat'],
                    'C07': ['published range contains every source-feasible value', 'analyzer range (max_steps in {default,0,1,2,3}) contains every source-feasible value',
@@ -568,6 +572,7 @@ def main(prop):
             'margin': 'eps=1e-7 relative float-noise margin, applied on the side that favours the code (DESIGN 2.2)',
             'solver': 'z3 %s (python API); timeout %d ms per query' % (z3.get_version_string(), QT),
             'driver_build_s': round(build_s, 1), 'check_s': round(time.time() - t0, 1),
+            'kani': kani_summary,
             'outside': ['strict comparisons', 'constants outside the dyadic set (C07 adds a non-dyadic family)', 'programs larger than the family',
                         'models the compiler rejects (counted by kind in by_status)'],
         },
